@@ -729,6 +729,8 @@ def r13(ctx: Ctx) -> RuleReport:
                         sites.append((n, a, f'call:{nm}'))
                 if isinstance(n.func, ast.Attribute) and n.func.attr == 'join' and n.args:
                     sites.append((n, n.args[0], 'join'))
+                if isinstance(n.func, ast.Attribute) and n.func.attr == 'fromkeys' and n.args and norm(n.func.value) in ('dict', 'OrderedDict', 'collections.OrderedDict'):
+                    sites.append((n, n.args[0], 'fromkeys'))
                 if isinstance(n.func, ast.Attribute) and n.func.attr == 'pop' and not n.args:
                     sites.append((n, n.func.value, 'setpop'))
                 if isinstance(n.func, ast.Attribute) and n.func.attr in ('extend',) and n.args:
@@ -802,6 +804,15 @@ def _classify_set_iteration(ctx, fi, pm, node, it, kind):
         if nm == 'iter' and isinstance(par, ast.Call) and isinstance(par.func, ast.Name) and par.func.id == 'next':
             return 'violation', 'next(iter(<set>)) picks a hash-order dependent element'
         return 'violation', f'{nm}(<set>) fixes a hash-order dependent sequence'
+    if kind == 'fromkeys':
+        # the keys of the new dict are inserted in the iteration order of the set: harmless only if the dict is never iterated / returned
+        tgt = pm.get(id(node))
+        if isinstance(tgt, (ast.Assign, ast.AnnAssign)):
+            nm = (tgt.targets[0] if isinstance(tgt, ast.Assign) else tgt.target)
+            if isinstance(nm, ast.Name) and not _is_iterated(ctx, fi, nm.id):
+                return 'ok', f'dict `{nm.id}` is only indexed / tested for membership in this function and its callees, never iterated'
+        return 'violation', ('dict.fromkeys(<set>) inserts the keys in the iteration order of the set, which depends on the hash seed; the dict (or something built from its '
+                             'items) is iterated or handed to the caller, so the order of the result differs from run to run')
     if kind in ('join', 'extend', 'unpack'):
         return 'violation', f'{kind} over a set: order depends on the hash seed'
     return 'violation', 'set iteration'
